@@ -170,6 +170,21 @@ def main():
             if any(kf.get("native_match") == st for kf in known):
                 print(f"NOTE: the witness of known finding {st} no longer fails on this tree (no KNOWN-FINDING line is printed for it)")
 
+    # ------------------------------------------------------------------ assumed contracts validated bounded
+    for aname in cfg.get("assumption_checks", []) if not args.no_native else []:
+        try:
+            ares = run_native(aname, tier, seed)
+        except Exception as e:
+            print("CHECKER-ERROR " + str(e).replace("\n", " | ")[:2000])
+            return 3
+        cov.setdefault("assumptions_validated_bounded", {})[aname] = {
+            "rule": ares["rule"], "bound": ares.get("bound", ""), "evaluations": ares["evaluations"], "deviations": len(ares["violations"]),
+            "label": "bounded validation of an assumed contract; the assumption stays an assumption"}
+        for v in ares["violations"][:3]:
+            # the proofs rest on this assumption: where it fails they do not apply to this tree (never a property violation)
+            undecided.append({"name": f"assumption {aname}", "reason": f"{v.get('what')} on input {v.get('input')!r}: observed {v.get('observed')}; "
+                              f"the proofs that use the mark model do not apply to this tree"})
+
     if args.write_baseline and proof and not proof["failed"] and not undecided:
         bp = os.path.join(VERIF, "baseline", "obligations.json")
         base = json.load(open(bp)) if os.path.exists(bp) else {}
@@ -229,6 +244,9 @@ def replay(pid, path, tier, seed):
 
 
 if __name__ == "__main__":
+    if os.environ.get("PYTHONHASHSEED") != "0":
+        # deterministic set/dict-of-str iteration: the same source gives byte-identical queries on every run
+        os.execve(sys.executable, [sys.executable] + sys.argv, dict(os.environ, PYTHONHASHSEED="0"))
     try:
         sys.exit(main())
     except SystemExit:
